@@ -344,6 +344,10 @@ type hop struct {
 type hcase struct {
 	IPs []string `json:"ips"`
 	Ops []hop    `json:"ops"`
+	// Early: sockets used on the host before it is attached to its router (1: loopback bind with port 0, 2: wildcard bind
+	// with port 0, 3: both), closed again before the attachment. Whatever the host learned about itself then must not
+	// outlive the attachment: afterwards its interface addresses are its own.
+	Early int `json:"early,omitempty"`
 }
 
 type msock struct {
@@ -383,6 +387,15 @@ func runHostCase(c *hcase, r *res.Result) (string, string, int) {
 	}
 	h, _ := vnet.NewNet(&vnet.NetConfig{StaticIPs: c.IPs})
 	peer, _ := vnet.NewNet(&vnet.NetConfig{StaticIPs: []string{"10.5.200.1"}})
+	for k, a := range []string{"127.0.0.1:0", "0.0.0.0:0"} {
+		if c.Early&(1<<k) == 0 {
+			continue
+		}
+		if ec, err := h.ListenPacket("udp", a); err == nil {
+			ec.Close()
+			r.Count("binds_before_attachment", 1)
+		}
+	}
 	if err := rt.AddNet(h); err != nil {
 		return "host:ctor", err.Error(), 0
 	}
@@ -711,6 +724,11 @@ func genHostCase(rng *rand.Rand, fill bool) *hcase {
 		c.Ops = append(c.Ops, hop{K: "close", Sock: rng.Intn(1000)}, hop{K: "listenudp", IP: ip, Port: 0}, hop{K: "listenudp", IP: ip, Port: 0})
 		n = 30
 	}
+	defer func() {
+		if rng.Intn(2) == 0 {
+			c.Early = 1 + rng.Intn(3)
+		}
+	}()
 	for i := 0; i < n; i++ {
 		ip := ips[rng.Intn(len(ips))]
 		port := ports[rng.Intn(len(ports))]
